@@ -53,6 +53,9 @@ def _starts_with_power(text):
         elif char in ")]}":
             depth -= 1
         elif depth == 0 and not (char.isalnum() or char in "._"):
+            if char in "+-" and text[idx - 1 : idx] in ("e", "E") and text[idx - 2 : idx - 1].isdigit():
+                # sign of the exponent of a number such as 1.0e-5
+                continue
             return text[idx : idx + 2] == "**"
 
     return False
